@@ -526,7 +526,8 @@ def main():
 
     default_to = 600 if tier == 'quick' else 1800
     default_mem = 12 if tier == 'quick' else 24
-    jobs = a.jobs or int(os.environ.get('VERIF_JOBS', '12'))
+    # thorough-tier processes may use up to 24-30 GB each: fewer of them in parallel
+    jobs = a.jobs or int(os.environ.get('VERIF_JOBS', '12' if tier == 'quick' else '5'))
     wroot = f'{BUILD}/work{ALT}/{pid}'
     shutil.rmtree(wroot, ignore_errors=True)
 
